@@ -74,7 +74,8 @@ def multipart(p, s, kind, initline, parts_data, outcap, final_sig=None):
     lines = [initline]
     for d in parts_data:
         if kind in ("Encrypt", "Decrypt"):
-            lines.append("C_%sUpdate s=%d in=x%s out=b%d" % (kind, s, d.hex(), len(d) + 32))
+            # room for everything fed so far plus two blocks: an implementation may hold data back and hand it out later (the length protocol is C12's subject)
+            lines.append("C_%sUpdate s=%d in=x%s out=b%d" % (kind, s, d.hex(), max(len(d) + 32, outcap)))
         else:
             lines.append("C_%sUpdate s=%d in=x%s" % (kind, s, d.hex()))
     if kind == "Verify":
@@ -661,6 +662,10 @@ def run_lane(rep, variant, quick, cnt, samples, tag):
             for k, v in (r["counters"] or {}).items():
                 cnt[k] = cnt.get(k, 0) + v
             for v in r["viol"]:
+                if tag and v["signature"].split("|")[-2].endswith("-refused"):
+                    # the second backend may support a narrower parameter range (Botan's GCM has no 32-bit tags): a refusal is not a wrong result
+                    cnt["refusals_not_judged"] = cnt.get("refusals_not_judged", 0) + 1
+                    continue
                 found.setdefault(v["signature"], v)
             samples += r["samples"][:1]
         todo = sorted(found.items())
